@@ -275,6 +275,38 @@ class Prop:
             seqs.append((start, cur))
         return seqs
 
+    @staticmethod
+    def well_formed(ls):
+        """a complete script of ONE instance: `times`.. `new` <operations> `destroy` [`files` | `times`].., every `script`
+        line directly in front of the `append` it scripts.  (A script without `destroy` ends with the driver's exit-time
+        destructor, which prints outside every step: model and implementation then 'differ' for a reason that has
+        nothing to do with the failure being minimised.)"""
+        ops = [l.split()[0] for l in ls if l.strip()]
+        if ops.count("new") != 1 or ops.count("destroy") != 1:
+            return False
+        n, d = ops.index("new"), ops.index("destroy")
+        if n == 0 or n > d or any(o != "times" for o in ops[:n]):
+            return False
+        if any(o not in ("append", "flush", "roll", "times", "script") for o in ops[n + 1:d]):
+            return False
+        if any(o not in ("files", "times") for o in ops[d + 1:]):
+            return False
+        return all(ops[i + 1] == "append" for i, o in enumerate(ops[:-1]) if o == "script") and ops[-1] != "script"
+
+    @staticmethod
+    def mismatch_kind(ctx, case, impl, model):
+        """structural kind of the first difference between implementation and model: (operation of that step, kinds of
+        the events only the implementation has, kinds of the events only the model has); None when they agree"""
+        ops = [l for l in case.lines if l.strip()]
+        for i in range(max(len(impl), len(model))):
+            a = ctx.observable(impl[i]) if i < len(impl) else ["<<missing>>"]
+            b = ctx.observable(model[i]) if i < len(model) else ["<<missing>>"]
+            if a != b:
+                return (ops[i].split()[0] if i < len(ops) else "?",
+                        tuple(sorted(set(x.split()[0] for x in a if x not in b))),
+                        tuple(sorted(set(x.split()[0] for x in b if x not in a))))
+        return None
+
     def logfile_batch(self, ctx, exe, lines, origin):
         case = Case("logfile", lines, origin)
         impl, err = ctx.run_impl(exe, case, timeout=600)
@@ -316,8 +348,10 @@ class Prop:
             m = re.search(r"step (\d+)", desc)
             seq = locate(int(m.group(1))) if m else ops
 
+            strict = self.well_formed(seq)      # a corpus case may be a fragment on purpose: then only `new` is required
+
             def still(ls):
-                if not any(l.startswith("new ") for l in ls):
+                if not any(l.startswith("new ") for l in ls) or (strict and not self.well_formed(ls)):
                     return False
                 b, _ = ctx.run_impl(exe, Case("logfile", ls), timeout=60)
                 f = self.logfile_oracle(ls, b)
@@ -330,14 +364,21 @@ class Prop:
             m = re.search(r"step (\d+)", mismatch)
             seq = locate(int(m.group(1))) if m else ops
 
+            strict = self.well_formed(seq)
+            # the kind of THIS mismatch, re-judged on the isolated sequence (the batch index of the step is gone there)
+            c0 = Case("logfile", seq)
+            b0, _ = ctx.run_impl(exe, c0, timeout=60)
+            kind0 = self.mismatch_kind(ctx, c0, b0, ctx.run_model(c0, b0, timeout=120))
+
             def still(ls):
-                if not any(l.startswith("new ") for l in ls):
+                if not any(l.startswith("new ") for l in ls) or (strict and not self.well_formed(ls)):
                     return False
                 c = Case("logfile", ls)
                 b, _ = ctx.run_impl(exe, c, timeout=60)
                 mo = ctx.run_model(c, b, timeout=120)
-                return ctx.compare(c, b, mo) is not None
-            small = shrink(seq, still)
+                k = self.mismatch_kind(ctx, c, b, mo)
+                return k is not None and k == kind0     # the same difference, not just any difference
+            small = shrink(seq, still) if kind0 is not None else seq
             c = Case("logfile", small, origin)
             b, _ = ctx.run_impl(exe, c, timeout=60)
             mo = ctx.run_model(c, b, timeout=120)
